@@ -57,7 +57,7 @@ Section Canon.
     intros W. destruct x as [| | |op args| | |slots|]; try (simpl in W; discriminate); try (apply good_refl; exact W).
     2:{ unfold canon_cb. apply compose_perm_good; [exact W|]. apply Permutation_sym. apply (sort_by_perm key_slot slots). }
     unfold canon_cb. destruct (is_assoc op) eqn:A; [|apply good_refl; exact W].
-    assert (NS : is_shift op = false) by (unfold is_assoc in A; unfold is_shift; destruct (opk_of op); try discriminate; reflexivity).
+    assert (NS : is_sr op = false) by (unfold is_assoc in A; unfold is_sr, is_shift, is_rot; destruct (opk_of op); try discriminate; reflexivity).
     destruct (wf_op_inv ac IdQ _ _ W NS) as (Wl & a & r & -> & _ & Sl).
     assert (Hn : 0 < size a) by (inversion Wl; subst; apply (wf_range ac IdQ rho mu iota); assumption).
     assert (K : exists k, aop_of op = Some k) by (unfold is_assoc in A; unfold aop_of; destruct (opk_of op); try discriminate; eauto).
